@@ -53,6 +53,12 @@ func c09(c *Ctx) (*report.Result, error) {
 
 	res.Explanation = "SSA of shardManagerImpl.DeliverMessagesToShardOwner / DeliverAckToShardOwner (what dominates each `return true`, reachability from the completed local hand-off to the remote forward, order of local attempt and owner lookup; the `delivered` flag is a closure-captured cell whose single store is located in the send arm of the select), of shardDelegate.NotifyMsg (control dependence of the local unregistration on Created.Before(msg.Timestamp)), of shardEventDelegate.NotifyLeave / getShardOwner / GetRemoteShardsForPeer, and of intraProxyManager.sendReplicationMessages / sendAck (nil only after a successful stream send). Decides the routing clause ('delivered, or reported undelivered; never both local and remote'); convergence of ownership under arbitrary orders, duplications and delays of gossip messages is a statement over histories and is not decided."
 	res.Assumptions = []string{"memberlist delivers NotifyLeave for departed nodes", "a send arm that fired has handed the message to the channel"}
+	res.RuleDoc["O9.11"] = "pushed state is remembered: MergeRemoteState stores every state it could decode under that state's own node name (only a decode error or a missing manager go around the store) - the table it fills is what owner lookup and the announcement target list read"
+	checkMergeRecordsState(c, res, "O9.11")
+	res.RuleDoc["O9.12"] = "claims and releases are announced: RegisterShard calls broadcastShardChange(\"register\") on every path; UnregisterShard deletes the claim and then calls broadcastShardChange(\"unregister\") on every path"
+	checkShardChangeAnnounced(c, res, "O9.12")
+	res.RuleDoc["O9.13"] = "the forward to the owning instance is attempted exactly when another instance owns the shard: in both Deliver*ToShardOwner functions the intra-proxy send is guarded by memberlistConfig != nil, a known owner, owner != this node and a known address, each on its positive side"
+	checkRemoteForwardCondition(c, res, "O9.13")
 	res.RuleDoc["O9.10"] = "no swallowed error in the files the mechanism lives in: no function returns a nil error on a path on which an error obtained from a call is known to be non-nil (io.EOF from a stream Recv, the normal end of a receive loop, is the one accepted idiom)"
 	checkNoSwallowedErrors(c, res, "O9.10", []string{"proxy/intra_proxy_router.go", "proxy/shard_manager.go"})
 	return res, nil
